@@ -220,12 +220,14 @@ class FakeSocketModule(object):
 
 # ------------------------------------------------------------------ connections
 class MemTransport(M.Transport):
+  """what every transport of the messenger does: remember its connections, forget one when it closes"""
   def __init__(self, nexus):
     M.Transport.__init__(self, nexus)
-    self.forgot = []
+    self._connections = set()
 
   def _forget(self, connection):
-    self.forgot.append(connection)
+    if connection in self._connections:
+      self._connections.remove(connection)
 
 
 class MemConnection(M.Connection):
@@ -411,6 +413,7 @@ class World(object):
   def open_mem(self, idx):
     """what a transport does for a new client: construct, register, (stream transports) welcome"""
     con = MemConnection(self.mem_transport)
+    self.mem_transport._connections.add(con)
     self.cons[idx] = con
     self.taken[idx] = 0
     self._watch_con(con)
@@ -526,6 +529,16 @@ class World(object):
             for name, ch in self.nexus._channels.items()}
 
   def close(self):
+    if self.tcp_gen is not None:
+      old = sys.stderr
+      sys.stderr = io.StringIO()      # the accept loop prints the GeneratorExit it catches
+      try:
+        self.tcp_gen.close()
+      except Exception:
+        pass
+      finally:
+        sys.stderr = old
+      self.tcp_gen = None
     T.socket = _REAL_SOCKET
     T.Select = recoco.Select
     set_session_shim(False)
